@@ -17,6 +17,7 @@ TECHNIQUE = "placed-draw decision monitor over every counter value (draw set jus
 RULE = ("cases: (a) reserved range - configuration x way of reaching every total 0..num_reserved+1; (b) placed draws - configuration x "
         "counter value x side of the decision boundary; (c) law - configuration x total N x T trials compared with the exact chain "
         "(chi-square at 1e-10, mean at |z| <= 7); (d) lower bound - random histories with merges; (e) refills - R successive batches. "
+        "(f) fork - parent and forked child both replenish draw batches after the fork, no replenished batch may be common. "
         "non-trivial = a case that exercised the probabilistic range (counter >= num_reserved) or a refill; distinct = by case digest")
 ASSUMPTIONS = ["the public attributes rand_nums / rand_ptr hold the draws the next adds will consume (as documented); placing a draw means filling the batch with one value",
                "statistical clauses have a per-run false-alarm budget below 1e-9; bias below about 0.3% of N at T = 2*10^4 (quick) is not resolved",
